@@ -713,4 +713,55 @@ example :
     certReportUnsorted iter [nXdll, nYdll, nBogus] = [some [65], some [66], none] := by
   decide
 
+/-! ## 7. "byte-identical … reports": the thread-local print context (seeded break C13-2b) -/
+
+theorem printSeq_setCtx (ctx : Option Width) (ws : List Width) :
+    printSeq setCtx ctx ws = ws.map (fun w => addrChars (some w)) := by
+  induction ws generalizing ctx with
+  | nil => rfl
+  | cons w ws ih => simp [printSeq, setCtx, ih]
+
+/-- **C13.7** `print_context_history_free`: what a print shows depends on the printed state only —
+    not on the context the thread was left with (`ctx`, `ctx'`: anything earlier prints, of any
+    dumps, on this thread or worker did) and not on what is printed before it (`pre`, `pre'`). -/
+theorem print_context_history_free (ctx ctx' : Option Width) (pre pre' : List Width) (w : Width)
+    (post : List Width) :
+    (printSeq setCtx ctx (pre ++ w :: post)).drop pre.length =
+      (printSeq setCtx ctx' (pre' ++ w :: post)).drop pre'.length := by
+  rw [printSeq_setCtx, printSeq_setCtx]
+  simp [List.map_append]
+
+/-- a 32-bit dump is printed with 10-character addresses, a 64-bit one with 18, whatever came first -/
+example : printSeq setCtx none [64, 32, 64, 32] = [18, 10, 18, 10] ∧
+    printSeq setCtx (some 64) [32] = [10] := by decide
+
+/-- the variant of seeded break C13-2b (fill the context only when it is empty) makes the bytes of
+    a report depend on what the thread printed before: an x86 dump after an amd64 dump gets
+    18-character addresses, alone it gets 10. -/
+theorem print_context_once_history_dependent :
+    ∃ (ctx ctx' : Option Width) (w : Width), printSeq setCtxOnce ctx [w] ≠ printSeq setCtxOnce ctx' [w] :=
+  ⟨none, some 64, 32, by decide⟩
+
+example : printSeq setCtxOnce none [64, 32] = [18, 18] ∧ printSeq setCtxOnce none [32] = [10] := by decide
+
+/-! ## 8. "across repeated runs": register heuristics of a bit-flip candidate -/
+
+theorem heurStep_comm (near poison : Nat → Bool) (acc : Nat × Bool) (a b : Nat) :
+    heurStep near poison (heurStep near poison acc a) b = heurStep near poison (heurStep near poison acc b) a := by
+  obtain ⟨n, p⟩ := acc
+  unfold heurStep
+  cases near a <;> cases near b <;> cases poison a <;> cases poison b <;> cases p <;> simp <;> omega
+
+/-- **C13.8** `heuristics_order_free`: `nearby_registers` and `poison_registers` (hence the
+    confidence shown for a bit-flip candidate) do not depend on the order in which
+    `valid_registers()` yields the registers — the loop body commutes. -/
+theorem heuristics_order_free (near poison : Nat → Bool) (vals vals' : List Nat) (hp : vals.Perm vals') :
+    heuristics near poison vals' = heuristics near poison vals := by
+  unfold heuristics
+  exact (foldl_perm_of_comm (heurStep near poison) hp
+    (fun a _ b _ _ s => heurStep_comm near poison s a b) (0, false)).symm
+
+example : heuristics (· < 10) (· == 0xa5) [3, 0xa5, 20, 4] = (2, true) ∧
+    heuristics (· < 10) (· == 0xa5) [4, 20, 0xa5, 3] = (2, true) := by decide
+
 end MdModel.Det
